@@ -196,6 +196,7 @@ def random_svd(ctx, idx, rng):
         cplx = bool(np.iscomplexobj(A))
     else:
         A = matrix_with_spectrum(rng, q0, q1, kind, cplx) * float(rng.choice([1, 1e-20, 1e20, 0.01]))
+    A, mem = gen.memory_layout(rng, A)
     nA = np.linalg.norm(A)
     tols = [float(rng.choice(TOLS))]
     if nA > 0:
@@ -209,7 +210,7 @@ def random_svd(ctx, idx, rng):
     for tol in tols:
         snap = oracles.snapshot_arrays(A, q0, q1)
         ctx.case(('svd', lay, kind, 'complex' if cplx else 'real', 'tol0' if tol == 0 else ('tol-on-weight' if tol not in TOLS else 'tol-grid'),
-                  'zero' if nA == 0 else 'nonzero'), nontrivial=nA > 0, sample={'A': snap[0], 'q0': q0, 'q1': q1, 'tol': tol})
+                  'zero' if nA == 0 else 'nonzero', mem), nontrivial=nA > 0, sample={'A': snap[0], 'q0': q0, 'q1': q1, 'tol': tol})
         with monitor.write_protected(A, q0, q1):
             res = ptn.split_matrix_svd(A, q0, q1, tol)
         oracles.check_svd(ctx, snap[0], snap[1], snap[2], tol, (A, q0, q1), res)
